@@ -41,11 +41,13 @@ var (
 	uP1 = model.PT("p", model.T1)
 	uP2 = model.PT("p", model.T2)
 	uQ  = model.PI("q")
+	uR1 = model.PT("r", model.T1)
 	U   = []*triple.Triple{
 		model.T(uS, uP1, uO1), // t0
 		model.T(uS, uP1, uO2), // t1  same subject, same predicate and anchor: same idxS/idxP/idxSP buckets as t0
 		model.T(uS, uP2, uO1), // t2  same partial predicate, later anchor (LatestAnchor keeps only this one)
 		model.T(uS, uQ, uO1),  // t3  immutable
+		model.T(uS, uR1, uO1), // t4  temporal predicate with another id: a LatestAnchor lookup keeps it next to the latest "p" (two results: the consumer looks at the options while the driver is parked on the second send)
 	}
 	uKey = map[string]int{}
 	ctx  = context.Background()
@@ -93,14 +95,14 @@ func modelLookup(lk, opt string, state uint8) uint8 {
 	switch opt {
 	case "latest":
 		// temporal triples only; per predicate id the latest anchor
-		set &= 0b0111
+		set &= 0b10111
 		if set&0b0100 != 0 {
-			set = 0b0100
+			set &^= 0b0011
 		}
 	case "isTemporal":
-		set &= 0b0111
+		set &= 0b10111
 	case "isImmutable":
-		set &= 0b1000
+		set &= 0b01000
 	}
 	return set
 }
@@ -696,7 +698,11 @@ func (sc *scenario) check(h *hctx, out *vrt.Outcome) ([]explore.Verdict, string)
 	ops := append([]porcupine.Operation(nil), h.ops...)
 	for _, rec := range h.looks {
 		m, bad := rec.resultMask()
-		oc = append(oc, fmt.Sprintf("%s=%s err=%v", rec.name, maskStr(m), rec.err != nil))
+		if rec.noModel || rec.wantErr {
+			oc = append(oc, fmt.Sprintf("%s=%d elements, %d option snapshots err=%v", rec.name, len(rec.got), len(rec.loSeen), rec.err != nil))
+		} else {
+			oc = append(oc, fmt.Sprintf("%s=%s err=%v", rec.name, maskStr(m), rec.err != nil))
+		}
 		if rec.wantErr {
 			if rec.err == nil {
 				add("error-path-returned-nil:"+rec.name, fmt.Sprintf("%s: expected an error, got nil (elements %v)", rec.name, rec.got))
